@@ -39,7 +39,7 @@ Definition candidates (p : bytes) : list bytes :=
 Definition mux_clean (e : bytes) : bytes :=
   let np := clean_rooted e in
   match rev e with
-  | 47 :: _ => if beq np [47] then np else np ++ [47]
-  | _ => np
+  | c :: _ => if (c =? 47) && negb (beq np [47]) then np ++ [47] else np
+  | [] => np
   end.
 Definition mux_redirects (e : bytes) : bool := negb (beq (mux_clean e) e).
